@@ -1078,9 +1078,23 @@ impl Watch {
         self.rx.clear();
         self.want_close = false;
         if !self.lenient {
-            self.sync(&what, false);
+            self.sync_after_restore(&what);
         } else {
             self.lenient_resync();
+        }
+    }
+
+    /// what the restored object holds right after the restore is C16's business whatever
+    /// other property the comparison belongs to
+    fn sync_after_restore(&mut self, what: &str) {
+        let had = self.viol.is_some();
+        self.sync(what, false);
+        if !had {
+            if let Some(v) = self.viol.as_mut() {
+                if !v.props.contains(&"C16") {
+                    v.props.push("C16");
+                }
+            }
         }
     }
 }
@@ -1196,7 +1210,7 @@ impl Watch {
         self.m.store = d.store.clone();
         self.m.out = d.out.clone();
         self.m.inq2 = d.inq2.clone();
-        self.sync(&what, false);
+        self.sync_after_restore(&what);
     }
 }
 
